@@ -17,10 +17,12 @@ NAMES_SIGNATURE = [b'\xef\xbb\xbf', b'\xef\xbb\xbfx', b'\xff\xfe', b'\xfe\xffq']
 NAMES = NAMES_PLAIN + NAMES_KW + NAMES_GLYPH + NAMES_SIGNATURE + [b'?']
 
 NUM_DEC = [b'0', b'1', b'42', b'007', b'65535', b'32767']
-NUM_FRAC = [b'1.5', b'0.25', b'5.', b'.5', b'.125', b'10.0', b'3.14159']
+NUM_FRAC = [b'1.5', b'0.25', b'5.', b'.5', b'.125', b'10.0', b'3.14159', b'0.00000000000000000001', b'1.00000000000000000000005']
 NUM_EXP = [b'1e3', b'1E3', b'2e-2', b'2E-2', b'1e+2', b'1E+2', b'1.5e2', b'.5e1', b'5.e1', b'1e0']
-NUM_HEX = [b'0x0', b'0xff', b'0XFF', b'0xAbC', b'0x7fff', b'0x1f.8', b'0X1F.8', b'0x.8', b'0x.f', b'0x0.0001']
-NUM_BIN = [b'0b0', b'0b1', b'0B1', b'0b1010', b'0b1.1', b'0B10.01', b'0b.1', b'0b.01']
+NUM_HEX = [b'0x0', b'0xff', b'0XFF', b'0xAbC', b'0x7fff', b'0x1f.8', b'0X1F.8', b'0x.8', b'0x.f', b'0x0.0001',
+           b'0x.00000000000000008', b'0x1.00000000000000000001', b'0x.ffffffffffffffffffff']
+NUM_BIN = [b'0b0', b'0b1', b'0B1', b'0b1010', b'0b1.1', b'0B10.01', b'0b.1', b'0b.01',
+           b'0b0.00000000000000001', b'0B1.10000000000000011', b'0b.000000000000000000001', b'0b1111111111111111.1111111111111111']
 NUMBERS = NUM_DEC + NUM_FRAC + NUM_EXP + NUM_HEX + NUM_BIN
 
 STRINGS_DQ = [b'""', b'"s"', b'"a b"', b'"it\'s"', b'"\\""', b'"\\\\"', b'"\\n\\t"', b'"\x8e\x97"', b'"--x"', b'"//x"',
